@@ -5,6 +5,18 @@ use crate::ty::{Env, Prim, Ty};
 use crate::val::Val;
 use num_bigint::BigInt;
 
+thread_local! {
+    static CHAIN: std::cell::Cell<usize> = const { std::cell::Cell::new(0) };
+    static DIVERGED: std::cell::Cell<bool> = const { std::cell::Cell::new(false) };
+}
+
+/// True if a coercion on this thread met an expected type whose option nesting never ends
+/// (`type O = opt O`) since the last call; resets the flag. The result computed in that case
+/// is not a verdict of the specification.
+pub fn diverged() -> bool {
+    DIVERGED.with(|d| d.replace(false))
+}
+
 /// `env` resolves both the actual (wire) type `t` and the expected type `t2`.
 /// Returns `None` when no `v'` exists.
 pub fn coerce(env: &Env, v: &Val, t: &Ty, t2: &Ty) -> Option<Val> {
@@ -24,11 +36,29 @@ pub fn coerce(env: &Env, v: &Val, t: &Ty, t2: &Ty) -> Option<Val> {
                 },
                 _ => return None, // ill-typed input
             },
-            // not (null <: t): constituent rule, else null
-            _ => match coerce(env, v, t, y) {
-                Some(w2) => Val::some(w2),
-                None => Val::Opt(None),
-            },
+            // not (null <: t): constituent rule, else null.
+            // The constituent rule recurses on the *same* value at the content type; at an expected
+            // type like `type O = opt O` it never reaches a premise that decides (the spec's rules,
+            // with their negative premise, give no verdict there; the spec's test data expects
+            // failure). Such a chain is cut and reported through `diverged()`.
+            _ => {
+                let depth = CHAIN.with(|c| {
+                    let d = c.get() + 1;
+                    c.set(d);
+                    d
+                });
+                let r = if depth > env.0.len() + 64 {
+                    DIVERGED.with(|d| d.set(true));
+                    None
+                } else {
+                    coerce(env, v, t, y)
+                };
+                CHAIN.with(|c| c.set(c.get() - 1));
+                match r {
+                    Some(w2) => Val::some(w2),
+                    None => Val::Opt(None),
+                }
+            }
         }),
         Ty::Prim(q) => match (a, q, v) {
             (Ty::Prim(Prim::Nat), Prim::Int, Val::Nat(n)) => Some(Val::Int(BigInt::from(n.clone()))),
